@@ -799,6 +799,46 @@ func (c *Ctx) finish(start time.Time) int {
 	return 0
 }
 
+// replayWitnesses re-runs the pinned witness of every listed finding of this property that has an Elk
+// witness program: while it still misbehaves the finding is "seen" (KNOWN-FINDING line); once it
+// behaves as expected nothing is printed and the entry suppresses nothing that the run observes.
+func replayWitnesses(c *Ctx) {
+	for _, k := range c.known {
+		w, ok := k.Witness.(map[string]any)
+		if !ok {
+			continue
+		}
+		src, _ := w["elk"].(string)
+		want, hasWant := w["expected_stdout"].(string)
+		if src == "" || !hasWant {
+			continue
+		}
+		out := runWitnessChild(src)
+		c.Count("known_finding_witnesses_replayed", 1)
+		if out != want {
+			c.mu.Lock()
+			c.knownSeen[k.ID] = true
+			c.knownHits[k.ID]++
+			c.mu.Unlock()
+		}
+	}
+}
+
+// runWitnessChild runs an Elk program in a child process (a witness may crash the VM) and returns
+// stdout followed by a one-line summary of an abnormal end.
+func runWitnessChild(src string) string {
+	f, err := os.CreateTemp("", "witness-*.elk")
+	if err != nil {
+		return "<tempfile error>"
+	}
+	defer os.Remove(f.Name())
+	f.WriteString(src)
+	f.Close()
+	cmd := exec.Command("timeout", "60", selfExe(), "elkout", f.Name())
+	out, _ := cmd.Output()
+	return string(out)
+}
+
 func runCheck(ch *Check, tier string, seed int64, oneCase int) int {
 	start := time.Now()
 	c := newCtx(ch, tier, seed)
@@ -808,6 +848,9 @@ func runCheck(ch *Check, tier string, seed int64, oneCase int) int {
 	}
 	c.WorkDir = wd
 	defer os.RemoveAll(wd)
+	if oneCase < 0 {
+		replayWitnesses(c)
+	}
 	switch {
 	case oneCase >= 0:
 		if ch.Init != nil {
